@@ -51,59 +51,81 @@ UNIT = dict(
         assert!(idx == ideal || (on_boundary && idx + 1 == ideal) || near_integer(num, den, idx, left as u64));
     }
 
-    #[kani::proof]
-    fn g7_col_fractional_crop() {
-        // quarter-pixel crops: left = l4/4, width = c4/4 (exact in binary), so the ideal column is an exact integer quotient
+    fn col_fractional(c4: u16, dw: u16) {
+        // quarter-pixel crops: left = l4/4 (symbolic), width = c4/4 and dst width concrete (a symbolic divisor does not finish);
+        // the ideal column is an exact integer quotient
         let view = FvDims { w: kani::any(), h: 1 };
-        let (l4, c4, dw, x): (u16, u16, u16, u16) = (kani::any(), kani::any(), kani::any(), kani::any());
-        kani::assume(view.w <= 64 && dw <= 64 && c4 >= 1 && dw >= 1 && x < dw && l4 as u32 + c4 as u32 <= 4 * view.w);
+        let (l4, x): (u16, u16) = (kani::any(), kani::any());
+        kani::assume(view.w <= 64 && x < dw && l4 as u32 + c4 as u32 <= 4 * view.w);
         let b = CropBox { left: l4 as f64 / 4.0, top: 0., width: c4 as f64 / 4.0, height: 1. };
         let idx = fv_slice_x_in(b, dw as u32, 1, &view, x as u32) as u64;
         // centre = l4/4 + (2x+1) c4 / (8 dw) = (2 dw l4 + (2x+1) c4) / (8 dw)
         let num = 2 * dw as u64 * l4 as u64 + (2 * x as u64 + 1) * c4 as u64;
         let den = 8 * dw as u64;
         let (q, r) = (num / den, num % den);
-        kani::cover!(r != 0 && l4 % 4 != 0 && (l4 + c4) % 4 != 0);
+        kani::cover!(r != 0 && l4 % 4 != 0 && (l4 + c4) % 4 != 0 && x + 1 == dw);
         // exactly on a pixel edge: either neighbour (clamped to the last pixel)
         assert!(idx == q || (r == 0 && idx + 1 == q) || (q == view.w as u64 && idx + 1 == q));
     }
+    #[kani::proof] fn g7_col_fractional_crop_10q_to_5() { col_fractional(10, 5) }
+    #[kani::proof] fn g7_col_fractional_crop_7q_to_3() { col_fractional(7, 3) }
+    #[kani::proof] fn g7_col_fractional_crop_3q_to_4() { col_fractional(3, 4) }
+    #[kani::proof] fn g7_col_fractional_crop_26q_to_2() { col_fractional(26, 2) }
 
-    fn rows_check<V: crate::ImageView<Pixel = crate::pixels::U8>>(view: &V, base: *const crate::pixels::U8) {
-        let (top, ch): (f64, f64) = (kani::any(), kani::any());
-        kani::assume(top >= 0. && top < 4. && ch > 0. && top + ch <= 4.);        // what crop() accepts for a height-4 image
-        let dh: u32 = kani::any();
-        kani::assume(dh >= 1 && dh <= 3);
+    fn rows_check<V: crate::ImageView<Pixel = crate::pixels::U8>>(view: &V, base: *const crate::pixels::U8, ch: f64, dh: u32) {
+        // source 1x8; crop height and destination height concrete, crop top EVERY f64 accepted by crop()
+        let top: f64 = kani::any();
+        kani::assume(top >= 0. && top < 8. && top + ch <= 8.);
         // the statements of resample_nearest that feed the row iterator
         let y_scale = ch / dh as f64;
         let y_in_start = top + y_scale * 0.5;
         let mut n: u32 = 0;
         for row in view.iter_rows_with_step(y_in_start, y_scale, dh) {
             let got = unsafe { row.as_ptr().offset_from(base) } as f64;       // width 1: offset == row index
-            let ideal = top + (n as f64 + 0.5) * ch / dh as f64;
+            let ideal = top + (n as f64 + 0.5) * y_scale;
+            let (lo, hi) = ((ideal - 1e-9).floor(), (ideal + 1e-9).floor());
+            assert!(got == lo || got == hi || (got == 7.0 && hi >= 7.0));
+            n += 1;
+        }
+        kani::cover!(n == dh);
+        assert!(n == dh);
+    }
+
+    fn rows_typed_ref(ch: f64, dh: u32) {
+        let buf = [crate::pixels::U8::new(0); 8];
+        let v = crate::images::TypedImageRef::new(1, 8, &buf).unwrap();
+        rows_check(&v, buf.as_ptr(), ch, dh);
+    }
+    fn rows_default(ch: f64, dh: u32) {
+        let mut buf = [crate::pixels::U8::new(0); 8];
+        let base = buf.as_ptr();
+        let v = crate::images::TypedImage::from_pixels_slice(1, 8, &mut buf).unwrap();
+        rows_check(&v, base, ch, dh);
+    }
+    fn rows_default_small(ch: f64, dh: u32) {
+        // the default implementation walks a row iterator: the 8-row version exhausts memory, 4 rows are used instead
+        let mut buf = [crate::pixels::U8::new(0); 4];
+        let base = buf.as_ptr();
+        let v = crate::images::TypedImage::from_pixels_slice(1, 4, &mut buf).unwrap();
+        let top: f64 = kani::any();
+        kani::assume(top >= 0. && top < 4. && top + ch <= 4.);
+        let y_scale = ch / dh as f64;
+        let y_in_start = top + y_scale * 0.5;
+        let mut n: u32 = 0;
+        for row in v.iter_rows_with_step(y_in_start, y_scale, dh) {
+            let got = unsafe { row.as_ptr().offset_from(base) } as f64;
+            let ideal = top + (n as f64 + 0.5) * y_scale;
             let (lo, hi) = ((ideal - 1e-9).floor(), (ideal + 1e-9).floor());
             assert!(got == lo || got == hi || (got == 3.0 && hi >= 3.0));
             n += 1;
         }
-        kani::cover!(n == 3);
+        kani::cover!(n == dh);
         assert!(n == dh);
     }
-
-    #[kani::proof]
-    #[kani::unwind(6)]
-    fn g7_rows_typed_ref() {
-        let buf = [crate::pixels::U8::new(0); 4];
-        let v = crate::images::TypedImageRef::new(1, 4, &buf).unwrap();
-        rows_check(&v, buf.as_ptr());
-    }
-
-    #[kani::proof]
-    #[kani::unwind(6)]
-    fn g7_rows_default_impl() {
-        let mut buf = [crate::pixels::U8::new(0); 4];
-        let base = buf.as_ptr();
-        let v = crate::images::TypedImage::from_pixels_slice(1, 4, &mut buf).unwrap();
-        rows_check(&v, base);
-    }
+    #[kani::proof] #[kani::unwind(10)] fn g7_rows_typed_ref_6_to_3() { rows_typed_ref(6.0, 3) }
+    #[kani::proof] #[kani::unwind(10)] fn g7_rows_typed_ref_3_to_2() { rows_typed_ref(3.0, 2) }
+    #[kani::proof] #[kani::unwind(6)] fn g7_rows_default_impl_2_to_2() { rows_default_small(2.0, 2) }
+    #[kani::proof] #[kani::unwind(6)] fn g7_rows_default_impl_3_to_2() { rows_default_small(3.0, 2) }
 
     // the ideal coordinate num/den is within 2^-30 of the integer boundary below/above: float noise may pick either side
     fn near_integer(num: u64, den: u64, idx: u64, left: u64) -> bool {
@@ -115,15 +137,30 @@ UNIT = dict(
     }
 """)],
         harnesses=[
-            dict(name="g7_col_fractional_crop", kind="bounded", covers=1, timeout=1500,
-                 bound="source width <= 64, dst width <= 64, every quarter-pixel crop (left, width multiples of 1/4), every x",
+            dict(name="g7_col_fractional_crop_10q_to_5", kind="bounded", covers=1, timeout=1200,
+                 bound="crop width 2.5 px, dst width 5 (concrete); source width <= 64, EVERY quarter-pixel crop origin, every x",
                  claim="column == floor(left + (x+0.5)*cw/dw) exactly, either neighbour only when the centre is exactly on a pixel edge"),
-            dict(name="g7_rows_typed_ref", kind="bounded", covers=1, timeout=1500,
-                 bound="source 1x4, dst height 1..=3, EVERY f64 (top, height) accepted by crop(); TypedImageRef's own iter_rows_with_step",
+            dict(name="g7_col_fractional_crop_7q_to_3", kind="bounded", covers=1, timeout=1200,
+                 bound="crop width 1.75 px, dst width 3 (concrete); source width <= 64, EVERY quarter-pixel crop origin, every x",
+                 claim="column == floor(left + (x+0.5)*cw/dw) exactly, either neighbour only when the centre is exactly on a pixel edge"),
+            dict(name="g7_col_fractional_crop_3q_to_4", kind="bounded", covers=1, timeout=1200,
+                 bound="crop width 0.75 px, dst width 4 (concrete); source width <= 64, EVERY quarter-pixel crop origin, every x",
+                 claim="column == floor(left + (x+0.5)*cw/dw) exactly, either neighbour only when the centre is exactly on a pixel edge"),
+            dict(name="g7_col_fractional_crop_26q_to_2", kind="bounded", covers=1, timeout=1200,
+                 bound="crop width 6.5 px, dst width 2 (concrete); source width <= 64, EVERY quarter-pixel crop origin, every x",
+                 claim="column == floor(left + (x+0.5)*cw/dw) exactly, either neighbour only when the centre is exactly on a pixel edge"),
+            dict(name="g7_rows_typed_ref_6_to_3", kind="bounded", covers=1, timeout=1200,
+                 bound="source 1x8, crop height 6.0 -> 3 rows (concrete), EVERY f64 crop top accepted by crop(); TypedImageRef's own iter_rows_with_step",
                  claim="exactly dst_h rows are produced and row y is floor(top + (y+0.5)*ch/dh) (either neighbour within 1e-9 of a pixel edge)"),
-            dict(name="g7_rows_default_impl", kind="bounded", covers=1, timeout=1500,
-                 bound="source 1x4, dst height 1..=3, EVERY f64 (top, height) accepted by crop(); default ImageView::iter_rows_with_step (TypedImage)",
-                 claim="same for the default implementation"),
+            dict(name="g7_rows_typed_ref_3_to_2", kind="bounded", covers=1, timeout=1200,
+                 bound="source 1x8, crop height 3.0 -> 2 rows (concrete), EVERY f64 crop top accepted by crop(); TypedImageRef's own iter_rows_with_step",
+                 claim="exactly dst_h rows are produced and row y is floor(top + (y+0.5)*ch/dh) (either neighbour within 1e-9 of a pixel edge)"),
+            dict(name="g7_rows_default_impl_2_to_2", kind="bounded", covers=1, timeout=1200,
+                 bound="source 1x4, crop height 2.0 -> 2 rows (concrete), EVERY f64 crop top accepted by crop(); default ImageView::iter_rows_with_step (TypedImage)",
+                 claim="exactly dst_h rows are produced and row y is floor(top + (y+0.5)*ch/dh) (either neighbour within 1e-9 of a pixel edge)"),
+            dict(name="g7_rows_default_impl_3_to_2", kind="bounded", covers=1, timeout=1200,
+                 bound="source 1x4, crop height 3.0 -> 2 rows (concrete), EVERY f64 crop top accepted by crop(); default ImageView::iter_rows_with_step (TypedImage)",
+                 claim="exactly dst_h rows are produced and row y is floor(top + (y+0.5)*ch/dh) (either neighbour within 1e-9 of a pixel edge)"),
             dict(name="g7_col_in_bounds", kind="complete", covers=1, timeout=900,
                  claim="for every crop box accepted by crop(), every W, dst_w, x < dst_w: the tabulated column is < W"),
             dict(name="g7_col_is_pixel_under_centre", kind="complete", covers=1, timeout=1500, tier="thorough",
